@@ -8,12 +8,38 @@ numbers under the recorder's lock) are validated against Server_Trace.tla; the s
 repeated under the race detector with no harness lock on the library's paths (a race report is a
 Race event, which no specification action produces). The device-side pipeline (no deadlock, no
 race under permuted producer/consumer speeds) is exercised by the same runs with injected delays
-and by Pipeline.tla (see C15)."""
+and by Pipeline.tla (see C15).
+
+Non-interference as a specification (Isolation.tla, Isolation_Trace.tla, harness/concx/iso.go): TLC
+draws MIXES of devices that share key kinds and differ in every per-voucher / per-session attribute
+(encoding of the key in the voucher, credential reuse, replacement rendezvous info, owner module list
+and volume, both service-info sizes; the concretiser adds device info, key exchange and cipher); each
+mix runs on the real code in three phases with twin devices - every device alone on a fresh server
+instance (the baseline), all one after the other on one instance, all at once on one instance - and
+every exchange plus every device's outcome (projection of replacement credential and stored
+replacement voucher: owner key encoding, hash algorithm, agreement, GUID freshness, rendezvous and
+device info; module data both ways; size profile of its 68/69 messages) is validated against the
+specification: the recorded interleaving is replayed on Isolation.tla, whose invariant
+NonInterference says that a complete session holds the outcome of its sequential run alone, and the
+observed outcome must be the one the specification state holds (what the specification leaves open
+must equal the device's own solo run).  The same mixes run under the race detector.
+
+Device-side pipeline as a specification (DevPipe.tla, DevPipe_Trace.tla, harness/concx/pipe.go): the
+goroutine / capacity structure of exchangeServiceInfo is model-checked for deadlock freedom,
+termination and delivery for volumes up to the documented buffering bound whatever the size classes
+(and the documented deadlock above the bound is shown to exist); TLC enumerates run classes (volume
+classes both ways up to just below the bound x size classes of both sides x where delays are
+injected); a pairwise cover (quick) or all of them (thorough) run as real fdo.TO2 under a watchdog,
+also under the race detector; a Hang is a step of DevPipe_Trace.tla only above the bound."""
 import json
 import os
+import random
+import re
 import subprocess
+import tempfile
+from concurrent.futures import ThreadPoolExecutor
 
-from lib.vlib import Inconclusive, read_ndjson, go_env
+from lib.vlib import Inconclusive, read_ndjson, write_ndjson, go_env
 from checks import server_family
 
 
@@ -59,7 +85,14 @@ def judge(ctx, rep, label):
 def run(ctx):
     quick = ctx.quick()
     vh = ctx.build_vh()
+    # the model-level checks of Isolation.tla and DevPipe.tla run beside the one of Server.tla
+    # (and TLC draws the isolation mixes and enumerates the pipeline run classes meanwhile)
+    bg = ThreadPoolExecutor(max_workers=3)
+    spec_fut, iso_fut, pipe_fut = bg.submit(spec_level, ctx), bg.submit(iso_generate, ctx), bg.submit(pipe_classes, ctx)
     ctx.model_check("Server", "Server_MC.cfg", timeout=3000)
+    spec_fut.result()
+    iso_gen, pipe_cls = iso_fut.result(), pipe_fut.result()
+    bg.shutdown()
     runs = [(8, "P256", 16), (6, "P384", 2)] if quick else [(8, "P256", 16), (16, "P384", 4), (32, "P256", 1), (64, "P256", 16), (12, "RSA2048RESTR", 8), (8, "RSAPSS3072", 2), (8, "RSAPKCS3072", 16)]
     nev, ndev = 0, 0
     for i, (n, kind, gmp) in enumerate(runs):
@@ -79,7 +112,8 @@ def run(ctx):
     # race detector: no harness lock on the library's paths, no recording
     vhr = ctx.build_vh(race=True)
     races = 0
-    rruns = [(8, "P256", 16), (6, "RSA2048RESTR", 4)] if quick else [(16, "P256", 16), (32, "P256", 4), (12, "P384", 2), (12, "RSA2048RESTR", 16), (8, "RSAPSS3072", 8), (64, "P256", 16)]
+    # (quick: the second race run is the mixed-kind isolation mix below - P256, P384 and RSA2048RESTR devices on one server)
+    rruns = [(8, "P256", 16)] if quick else [(16, "P256", 16), (32, "P256", 4), (12, "P384", 2), (12, "RSA2048RESTR", 16), (8, "RSAPSS3072", 8), (64, "P256", 16)]
     for i, (n, kind, gmp) in enumerate(rruns):
         rep, _, stderr = conc(ctx, vhr, n, ctx.seed + 100 + i, kind, False, gmp, "race%d" % i)
         if rep is None:
@@ -93,6 +127,10 @@ def run(ctx):
             top = frames[0].split("(")[0].split("/")[-1] if frames else "unknown"
             ctx.violation("race|%s" % top, "data race reported by the race detector in library code", {"report": stderr[:6000]})
         ctx.log("race n=%d %s GOMAXPROCS=%d: wall %.1fs, races=%d" % (n, kind, gmp, rep["wall_s"], races))
+    # non-interference: mixes of devices that differ per voucher / per session, each against its solo baseline
+    races += isolation(ctx, vh, vhr, iso_gen)
+    # device-side pipeline of fdo.TO2: volumes up to just below the buffering bound x sizes x delays, under a watchdog
+    races += pipeline_volumes(ctx, vh, vhr, pipe_cls)
     # device-side pipeline: the library's chunking goroutines (producer, chunker, transport side) under buffered
     # and unbuffered pipes, GOMAXPROCS 2 and 16 and permuted producer/consumer delays; every recorded run must be
     # a behaviour of Chunk.tla (a lost wake-up or a lost tail shows as a read that ends early), no hang, no crash
@@ -114,16 +152,19 @@ def run(ctx):
     pstats.pop("window", None)
     ctx.notes["pipeline_runs"] = len(sruns)
     ctx.notes["pipeline_rejected_by_key"] = dict(pstats)
-    ctx.cov["traces_validated_against_impl"] = len(runs) + len(sruns)
-    ctx.cov["evaluations"] = nev + sum(1 for r in sruns for e in r if e["ev"] == "read")
-    ctx.cov["distinct_nontrivial"] = ndev
-    ctx.cov["rule"] = "one evaluation = one HTTP exchange of a concurrent run validated against Server_Trace.tla; distinct = device chains run concurrently (recorded and race-detector runs)"
+    ctx.cov["traces_validated_against_impl"] += len(runs) + len(sruns)
+    ctx.cov["evaluations"] += nev + sum(1 for r in sruns for e in r if e["ev"] == "read")
+    ctx.cov["distinct_nontrivial"] += ndev
+    ctx.cov["rule"] = ("one evaluation = one HTTP exchange of a concurrent run validated against Server_Trace.tla or Isolation_Trace.tla (or one ReadChunk of the pipe sweep); "
+                       "distinct = device chains run concurrently (recorded and race-detector runs) + devices of isolation mixes per phase + pipeline run classes")
     ctx.notes["race_reports"] = races
     ctx.notes["recorded_runs"] = [{"n": n, "kind": k, "gomaxprocs": g} for (n, k, g) in runs]
     ctx.notes["race_runs"] = [{"n": n, "kind": k, "gomaxprocs": g} for (n, k, g) in rruns]
     ctx.sample({"run": runs[0], "devices_ok": ndev})
     ctx.assumptions += ["the race clause is decided by the Go race detector on the schedules the runs exercise (TLA+ cannot see Go's memory model)",
-                        "cross-device independence: concurrent sessions concern distinct devices, so any linearisation of the recorded exchanges is a behaviour of Server.tla"]
+                        "cross-device independence: concurrent sessions concern distinct devices, so any linearisation of the recorded exchanges is a behaviour of Server.tla",
+                        "isolation mixes under the race detector are recorded per device without a shared lock; their exchanges are validated device by device (a linearisation, sessions being independent in Isolation.tla)",
+                        "the goroutines inside exchangeServiceInfo are not observable without hooks: a device pipeline run is judged end to end (terminates, delivered, in order) against what DevPipe.tla proves for its configuration; schedules are perturbed (delays, GOMAXPROCS), not steered"]
     return "model_checking"
 
 
@@ -144,3 +185,439 @@ def _validate(ctx, evs, n, label):
         bad = evs[min(hwm, len(evs) - 1)]
         ctx.violation("concurrent|trace|%s|t=%s|resp=%s|fx=%s|live=%s" % (bad.get("kind"), bad.get("t"), bad.get("resp"), ",".join(bad.get("fx", [])), bad.get("live")),
                       "exchange of a concurrent run not allowed by Server.tla: " + json.dumps(bad), {"prefix": evs[max(0, hwm - 8):hwm + 1]})
+
+
+# ---------------------------------------------------------------------------------------------
+# generic trace validation (TLC is the judge): returns (accepted, number of consumed lines, result)
+def _tv(ctx, module, cfg_text, lines, label):
+    wd = tempfile.mkdtemp(prefix="tv-%s-" % label, dir=ctx.scratch)
+    write_ndjson(os.path.join(wd, "trace.ndjson"), lines)
+    cfgp = os.path.join(wd, module + ".cfg")
+    with open(cfgp, "w") as f:
+        f.write(cfg_text)
+    r = ctx.tlc(module, cfgp, workers=1, workdir=wd, quiet=True, timeout=1500)
+    lvals = [int(x) for x in re.findall(r"^/\\ l = (\d+)", r["out"], re.M)]
+    if r["errors"] and lvals and any("Invariant" in e for e in r["errors"]):
+        return False, max(lvals) - 2, r
+    m = re.findall(r"TRACE_HWM[^0-9]*(\d+)", r["out"])
+    if not m:
+        raise Inconclusive("trace validation (%s) produced no high-water mark:\n%s" % (module, r["out"][-3000:]))
+    hwm = max(int(x) for x in m)
+    ctx.cov["transitions"] += r.get("generated", 0) or 0
+    return hwm >= len(lines), hwm, r
+
+
+def _expect_counterexample(ctx, module, cfg, what, deadlock=False):
+    """A configuration of the specification that must FAIL (the property is able to fail on the model)."""
+    r = ctx.tlc(module, cfg, workers=2, quiet=True, deadlock=deadlock, timeout=900)
+    if not any(what in v for v in r["violated"]):
+        raise Inconclusive("%s/%s was expected to produce '%s' (the specification's property cannot fail?):\n%s" % (module, cfg, what, r["out"][-2000:]))
+    ctx.notes.setdefault("expected_counterexamples", []).append({"module": module, "cfg": cfg, "found": what})
+
+
+def spec_level(ctx):
+    """Model-level checks of the two C19 specifications (no verdict about the code)."""
+    quick = ctx.quick()
+    ctx.model_check("Isolation", "Isolation_MC.cfg" if quick else "Isolation_MC_big.cfg", timeout=3000, workers=4 if quick else "auto")
+    _expect_counterexample(ctx, "Isolation", "Isolation_MC_memo.cfg", "Invariant NonInterference is violated")
+    ctx.model_check("DevPipe", "DevPipe_MC.cfg" if quick else "DevPipe_MC_big.cfg", timeout=3000, deadlock=True, workers=4 if quick else "auto")
+    _expect_counterexample(ctx, "DevPipe", "DevPipe_MC_over.cfg", "Deadlock reached", deadlock=True)
+    _expect_counterexample(ctx, "DevPipe", "DevPipe_MC_scaled.cfg", "Deadlock reached", deadlock=True)
+
+
+# ---------------------------------------------------------------------------------------------
+# non-interference: Isolation.tla
+ISO_DOMAINS = """  Kinds = %s
+  Encs = {"X509", "X5CHAIN", "COSE"}
+  Rvs = {1, 2}
+  Mtus = {"small", "default", "large"}
+  ModCounts = {0, 1, 2}
+  Vols = %s
+  OwnerChain = TRUE
+  Memo = FALSE
+"""
+ISO_FIELDS = ["reuse", "guid", "cenc", "alg", "venc", "vkey", "agree", "rv", "vrv", "entries", "echo", "nrecv", "oecho", "onrecv",
+              "devmod", "w68", "w69", "info", "vinfo", "oldgone", "inorder", "supp", "wire"]
+
+
+def iso_cfg(kind, n, kinds, vols="{1, 4}"):
+    devs = server_family.tla_set(["d%d" % i for i in range(1, n + 1)])
+    dom = ISO_DOMAINS % (server_family.tla_set(kinds), vols)
+    if kind == "gen":
+        return "SPECIFICATION GenSpec\nCONSTANTS\n  Devs = %s\n%sINVARIANTS Emit\n" % (devs, dom)
+    return "SPECIFICATION TraceSpec\nCONSTANTS\n  Devs = %s\n%sINVARIANTS TypeOK NonInterference\nPOSTCONDITION TraceAccepted\nCHECK_DEADLOCK FALSE\n" % (devs, dom)
+
+
+def iso_mixes(ctx, n, kinds, want, seed):
+    """Mixes drawn by TLC (Isolation_Gen.tla, -simulate) for n devices over the key kinds."""
+    wd = ctx.sub("isogen-%d-%d" % (n, seed))
+    cfgp = os.path.join(wd, "Isolation_Gen.cfg")
+    with open(cfgp, "w") as f:
+        f.write(iso_cfg("gen", n, kinds))
+    out, seen = [], set()
+    for attempt in range(4):
+        r = ctx.tlc("Isolation_Gen", cfgp, simulate=40 * (attempt + 1) + 20 * want, depth=n + 2, workers=1, seed=seed + 7919 * attempt, quiet=True, timeout=900)
+        for b in ctx.behaviours(r):
+            k = json.dumps(b, sort_keys=True)
+            if k not in seen:
+                seen.add(k)
+                out.append(b)
+        ctx.cov["transitions"] += r.get("generated", 0) or 0
+        if len(out) >= want:
+            break
+    if len(out) < want:
+        raise Inconclusive("Isolation_Gen produced %d of %d mixes" % (len(out), want))
+    return out[:want]
+
+
+def iso_concretise(rnd, mix_id, devs, record, phases, quick):
+    """Session-local data the specification does not mention: device info, key exchange, cipher, schedule seed."""
+    ds = []
+    for c in devs:
+        c = dict(c)
+        c["info"] = rnd.choice([1, 2])
+        c["kex"] = rnd.choice(server_family.KEX_FOR[c["kind"]] + (["ECDH256"] if c["kind"] == "RSA2048RESTR" else []))
+        c["cipher"] = rnd.choice(server_family.CIPHERS)
+        ds.append(c)
+    return {"id": mix_id, "seed": rnd.getrandbits(40), "devs": ds, "extra_dis": 2 if quick else 4, "delays": True,
+            "phases": phases, "record": record, "watch_ms": 240000}
+
+
+def iso_expected(c):
+    """Mirror of Solo(c) in Isolation.tla - used ONLY to name the fields of a rejected solo outcome in the key."""
+    e = c["enc"]
+    r = "orig" if c["reuse"] else "r%d" % c["rv"]
+    data = "none" if c["mods"] == 0 else "own"
+    return {"reuse": c["reuse"], "guid": "same" if c["reuse"] else "fresh", "cenc": e, "venc": e,
+            "alg": "SHA384" if c["kind"] in ("P384", "RSAPKCS3072", "RSAPSS3072") else "SHA256",
+            "vkey": "mfg" if c["reuse"] else "owner", "agree": True, "rv": r, "vrv": r, "entries": 1 if c["reuse"] else 0,
+            "echo": data, "nrecv": c["mods"] * (c["vol"] + 1), "oecho": data, "onrecv": c["mods"], "devmod": "own",
+            "w68": "small" if c["mods"] == 0 else c["omtu"], "w69": "small" if c["mods"] == 0 else c["dmtu"],
+            "info": "own", "vinfo": "own", "oldgone": not c["reuse"], "inorder": True, "supp": "own"}
+
+
+def iso_run(ctx, vh, mixes, gomaxprocs, label):
+    wd = ctx.sub("iso-" + label)
+    inp, out = os.path.join(wd, "mixes.json"), os.path.join(wd, "events.ndjson")
+    with open(inp, "w") as f:
+        json.dump(mixes, f)
+    env = go_env()
+    env["VERIF_SCRATCH"] = ctx.sub("db-iso-" + label)
+    env["GOMAXPROCS"] = str(gomaxprocs)
+    env["GORACE"] = "halt_on_error=0 exitcode=0"
+    try:
+        p = subprocess.run([vh, "conc-iso", "-in", inp, "-out", out], env=env, capture_output=True, text=True, timeout=1500)
+    except subprocess.TimeoutExpired:
+        return None, "timeout"
+    if p.returncode != 0:
+        raise Inconclusive("conc-iso failed: " + (p.stderr or p.stdout)[-2000:])
+    return read_ndjson(out), p.stderr
+
+
+def iso_judge(ctx, mix, evs, kinds, label):
+    """Validate the events of one mix against Isolation_Trace.tla; phases whose events are rejected are
+    reported and taken out, so that every phase is judged."""
+    cfgs = {c["d"]: c for c in mix["devs"]}
+    lines = [e for e in evs if e["ev"] in ("mix", "begin", "x", "outcome", "dis", "hang", "crash")]
+    vols = "{" + ", ".join(str(v) for v in sorted(set([0] + [c["vol"] for c in mix["devs"]]))) + "}"
+    cfg_text = iso_cfg("trace", len(mix["devs"]), kinds, vols)
+    solo = {e["d"]: e for e in lines if e["ev"] == "outcome" and e["mode"] == "solo"}
+    nout = 0
+    for attempt in range(6):
+        ok, hwm, res = _tv(ctx, "Isolation_Trace", cfg_text, lines, "%s-%d" % (label, attempt))
+        if ok:
+            nout += sum(1 for e in lines if e["ev"] == "outcome")
+            return nout
+        bad = lines[min(hwm, len(lines) - 1)]
+        mode, d = bad.get("mode"), bad.get("d")
+        c = cfgs.get(d, {})
+        cls = "kind=%s|enc=%s|reuse=%s" % (c.get("kind"), c.get("enc"), c.get("reuse"))
+        if bad["ev"] == "hang":
+            ctx.violation("hang|isolation|%s" % mode, "onboarding in a mix did not finish within the watchdog (phase %s, stuck %s)" % (mode, bad.get("stuck")), {"mix": mix, "event": bad})
+        elif bad["ev"] == "crash":
+            ctx.violation("panic|%s|isolation" % str(bad.get("what", "")).split("@")[-1].strip(), "panic in a mix", {"mix": mix, "event": bad})
+        elif bad["ev"] == "dis":
+            ctx.violation("concurrent|di-failed", "%s of %s concurrent device initialisations failed" % (bad.get("failed"), bad.get("n")), {"mix": mix, "event": bad})
+        elif bad["ev"] == "x":
+            ctx.violation("isolation|%s|exchange-failed|t=%s|resp=%s" % (mode, bad.get("t"), bad.get("resp")),
+                          "TO2 exchange of %s (%s) failed in phase %s, no step of Isolation.tla: %s" % (d, cls, mode, json.dumps(bad)), {"mix": mix, "event": bad})
+        elif bad["ev"] == "outcome":
+            if not bad.get("ok"):
+                key = "isolation|%s|to2-failed|%s" % (mode, (bad.get("err") or bad.get("panic") or "").split(":")[-1].strip()[:60])
+                what = "device %s (%s) fails in phase %s: %s" % (d, cls, mode, bad.get("err") or bad.get("panic"))
+            else:
+                ref, refname = (solo.get(d), "its solo run") if mode != "solo" and d in solo else (iso_expected(c), "Solo(cfg) of Isolation.tla")
+                diff = [f for f in ISO_FIELDS if f in ref and bad.get(f) != ref.get(f)]
+                if not diff and mode != "solo":       # equals the solo run, which itself was rejected
+                    ref, refname = iso_expected(c), "Solo(cfg) of Isolation.tla"
+                    diff = [f for f in ISO_FIELDS if f in ref and bad.get(f) != ref.get(f)]
+                key = "isolation|%s|outcome-differs|%s" % (mode, "+".join(diff) or "unexplained")
+                what = ("device %s (%s) in phase %s does not obtain the outcome it obtains alone; differs from %s in %s: observed %s, expected %s"
+                        % (d, cls, mode, refname, diff, {f: bad.get(f) for f in diff}, {f: ref.get(f) for f in diff}))
+            ctx.violation(key, what, {"mix": mix, "rejected": bad, "solo": solo.get(d), "replay": "vh conc-iso -in <[mix]> -out ev.ndjson; validate with spec/Isolation_Trace.tla"})
+        else:
+            raise Inconclusive("Isolation_Trace stopped at %s:\n%s" % (json.dumps(bad), res["out"][-2000:]))
+        # take the rejected event's phase (solo: that device's solo run) out and judge the rest
+        idx = min(hwm, len(lines) - 1)
+        start = max(i for i in range(idx + 1) if lines[i]["ev"] in ("begin", "mix"))
+        if lines[start]["ev"] == "mix":
+            raise Inconclusive("Isolation_Trace rejected the mix line itself:\n" + res["out"][-2000:])
+        end = next((i for i in range(idx + 1, len(lines)) if lines[i]["ev"] == "begin"), len(lines))
+        nout += sum(1 for e in lines[start:idx] if e["ev"] == "outcome")
+        if lines[start]["mode"] == "solo":
+            # without its baseline the device's later outcomes cannot be compared: drop them too
+            lines = [e for i, e in enumerate(lines) if not (start <= i < end) and not (e["ev"] == "outcome" and e.get("d") == d and e["mode"] != "solo")]
+        else:
+            lines = lines[:start] + lines[end:]
+    ctx.notes["isolation_judging_stopped"] = "more than 6 rejected phases in mix %s" % mix["id"]
+    return nout
+
+
+def races_in(ctx, stderr, what):
+    if "DATA RACE" not in (stderr or ""):
+        return 0
+    frames = [l.strip() for l in stderr.splitlines() if "go-fdo" in l and "(" in l]
+    top = frames[0].split("(")[0].split("/")[-1] if frames else "unknown"
+    ctx.violation("race|%s" % top, "data race reported by the race detector in library code (%s)" % what, {"report": stderr[:6000]})
+    return stderr.count("WARNING: DATA RACE")
+
+
+ISO_KINDS = ["P256", "P384", "RSA2048RESTR"]
+
+
+def iso_plan(ctx):
+    """(tag, devices, mixes, GOMAXPROCS) of the recorded and the race-detector mixes of this tier."""
+    if ctx.quick():
+        return [("rec", 6, 1, 16), ("race", 4, 1, 4)]
+    return [("rec", 4, 2, 2), ("rec", 8, 3, 16), ("rec", 12, 2, 4), ("rec", 16, 1, 16), ("race", 6, 2, 16), ("race", 10, 1, 2)]
+
+
+def iso_generate(ctx):
+    """TLC draws the mixes of the plan (model level; can run beside other model-level work)."""
+    return [(tag, n, gmp, iso_mixes(ctx, n, ISO_KINDS, k, ctx.seed * 31 + n + (500 if tag == "race" else 0))) for (tag, n, k, gmp) in iso_plan(ctx)]
+
+
+def isolation(ctx, vh, vhr, generated):
+    quick = ctx.quick()
+    rnd = random.Random(ctx.seed * 1009 + 19)
+    jobs, mid = [], 0
+    for (tag, n, gmp, gen) in generated:
+        # (race-detector mixes: the concurrent phase only; the baselines are compared in the recorded mixes)
+        record, phases = (True, ["solo", "seq", "conc"]) if tag == "rec" else (False, ["conc"] if quick else ["solo", "conc"])
+        mixes = []
+        for devs in gen:
+            mid += 1
+            mixes.append(iso_concretise(rnd, mid, devs, record, phases, quick))
+        jobs.append((tag, n, gmp, mixes, vh if tag == "rec" else vhr, phases))
+
+    def one(job):
+        tag, n, gmp, mixes, vhx, phases = job
+        evs, stderr = iso_run(ctx, vhx, mixes, gmp, "%s-%d" % (tag, n))
+        if evs is None:
+            ctx.violation("hang|isolation|n=%d" % n, "mix run timed out", {"mixes": mixes})
+            return 0, 0, 0, 0
+        races = races_in(ctx, stderr, "isolation mix n=%d" % n) if tag == "race" else 0
+        nout, ndev, nx = 0, 0, 0
+        for mix in mixes:
+            mevs = [e for e in evs if e.get("mix") == mix["id"]]
+            nout += iso_judge(ctx, mix, mevs, ISO_KINDS, "%s%d" % (tag, mix["id"]))
+            ndev += len(mix["devs"]) * len(phases)
+            nx += sum(1 for e in mevs if e["ev"] == "x")
+            tm = {e["what"]: e["ms"] for e in mevs if e["ev"] == "timing"}
+            ctx.log("isolation mix %d (%s, n=%d, GOMAXPROCS=%d): %d exchanges, phases ms %s" % (mix["id"], tag, n, gmp, sum(1 for e in mevs if e["ev"] == "x"), tm))
+        return nout, ndev, nx, races
+
+    with ThreadPoolExecutor(max_workers=2) as ex:
+        res = list(ex.map(one, jobs))
+    nmix = sum(len(j[3]) for j in jobs)
+    first = next((j[3][0] for j in jobs if j[0] == "rec" and j[3]), None)
+    if first:
+        ctx.sample({"isolation_mix": [{k2: c[k2] for k2 in ("d", "kind", "enc", "reuse", "rv", "omtu", "dmtu", "mods", "vol")} for c in first["devs"]]})
+    ctx.notes["isolation_mixes"] = nmix
+    ctx.notes["isolation_outcomes_validated"] = sum(r[0] for r in res)
+    ctx.notes["isolation_race_reports"] = sum(r[3] for r in res)
+    ctx.cov["traces_validated_against_impl"] += nmix
+    ctx.cov["distinct_nontrivial"] += sum(r[1] for r in res)
+    ctx.cov["evaluations"] += sum(r[2] for r in res)
+    return sum(r[3] for r in res)
+
+
+# ---------------------------------------------------------------------------------------------
+# device-side pipeline: DevPipe.tla
+PIPE_BOUND = 1000
+PIPE_TRACE_CFG = """SPECIFICATION TraceSpec
+CONSTANTS
+  Bound = %d
+  Vos = {0}
+  Vds = {0}
+  PerDs = {1}
+  PerOs = {1}
+  DefPer = 1
+  Scaled = FALSE
+POSTCONDITION TraceAccepted
+CHECK_DEADLOCK FALSE
+""" % PIPE_BOUND
+PIPE_DIMS = ["vo", "vd", "omtu", "dmtu", "delay"]
+
+
+def pipe_classes(ctx):
+    r = ctx.tlc("DevPipe_Gen", "DevPipe_Gen.cfg", workers=1, quiet=True, timeout=900)
+    if r["errors"]:
+        raise Inconclusive("DevPipe_Gen: " + "; ".join(r["errors"])[:1000])
+    seen, out = set(), []
+    for b in ctx.behaviours(r):
+        k = json.dumps(b, sort_keys=True)
+        if k not in seen:
+            seen.add(k)
+            out.append(b)
+    if not out:
+        raise Inconclusive("DevPipe_Gen printed no classes")
+    ctx.cov["states"] += r.get("distinct", 0) or 0
+    return out
+
+
+def pairwise_cover(classes, rnd):
+    """A seeded greedy selection of run classes in which every pair of values of two dimensions occurs."""
+    todo = set()
+    for c in classes:
+        for i, a in enumerate(PIPE_DIMS):
+            for b in PIPE_DIMS[i + 1:]:
+                todo.add((a, c[a], b, c[b]))
+    pool = list(classes)
+    rnd.shuffle(pool)
+    chosen = []
+    while todo:
+        best, gain = None, -1
+        for c in pool[:200]:
+            g = sum(1 for i, a in enumerate(PIPE_DIMS) for b in PIPE_DIMS[i + 1:] if (a, c[a], b, c[b]) in todo)
+            if g > gain:
+                best, gain = c, g
+        chosen.append(best)
+        pool.remove(best)
+        rnd.shuffle(pool)
+        for i, a in enumerate(PIPE_DIMS):
+            for b in PIPE_DIMS[i + 1:]:
+                todo.discard((a, best[a], b, best[b]))
+    return chosen
+
+
+def pipe_concretise(rnd, cid, k, watch_ms):
+    def vol(cls):
+        # logical service infos; "near" is just below the documented bound of buffered service infos
+        return {"few": rnd.randint(2, 9), "some": rnd.randint(150, 450), "near": rnd.randint(PIPE_BOUND - 40, PIPE_BOUND - 5)}[cls]
+
+    def mtu(cls):
+        return {"small": rnd.randint(256, 400), "default": rnd.choice([0, 1300]), "large": rnd.choice([4096, 8192, 16384]), "max": 65535}[cls]
+    return {"id": cid, "seed": rnd.getrandbits(40), "vo": vol(k["vo"]), "vd": vol(k["vd"]), "omtu": mtu(k["omtu"]), "dmtu": mtu(k["dmtu"]),
+            "delay": k["delay"], "watch_ms": watch_ms, "class": {d: k[d] for d in PIPE_DIMS}}
+
+
+def pipe_run(ctx, vh, cases, gomaxprocs, workers, label):
+    wd = ctx.sub("pipe-" + label)
+    inp, out = os.path.join(wd, "cases.json"), os.path.join(wd, "events.ndjson")
+    with open(inp, "w") as f:
+        json.dump(cases, f)
+    env = go_env()
+    env["VERIF_SCRATCH"] = ctx.sub("db-pipe-" + label)
+    env["GOMAXPROCS"] = str(gomaxprocs)
+    env["GORACE"] = "halt_on_error=0 exitcode=0"
+    try:
+        p = subprocess.run([vh, "conc-pipe", "-in", inp, "-out", out, "-workers", str(workers)], env=env, capture_output=True, text=True, timeout=3000)
+    except subprocess.TimeoutExpired:
+        raise Inconclusive("conc-pipe timed out (%s)" % label)
+    if p.returncode != 0:
+        raise Inconclusive("conc-pipe failed: " + (p.stderr or p.stdout)[-2000:])
+    return read_ndjson(out), p.stderr
+
+
+def pipe_judge(ctx, cases, evs, label):
+    by_id = {c["id"]: c for c in cases}
+    runs, cur = [], None
+    for e in evs:
+        if e["ev"] == "run":
+            cur = [e]
+            runs.append(cur)
+        elif cur is not None:
+            cur.append(e)
+    if len(runs) != len(cases):
+        raise Inconclusive("pipeline runs recorded %d of %d" % (len(runs), len(cases)))
+    for r in runs:
+        bad = [e for e in r if e["ev"] in ("harness_err",)]
+        if bad:
+            raise Inconclusive("pipeline harness error: %s" % json.dumps(bad[0]))
+    pending = list(runs)
+    for attempt in range(8):
+        lines, index = [], []
+        for r in pending:
+            for e in r:
+                lines.append(e)
+                index.append(r)
+        if not lines:
+            return len(runs)
+        ok, hwm, res = _tv(ctx, "DevPipe_Trace", PIPE_TRACE_CFG, lines, "%s-%d" % (label, attempt))
+        if ok:
+            return len(runs)
+        i = min(hwm, len(lines) - 1)
+        bad, r = lines[i], index[i]
+        case = by_id.get(bad.get("id"), {})
+        k = case.get("class", {})
+        cls = "vo=%s|vd=%s|omtu=%s|dmtu=%s" % (k.get("vo"), k.get("vd"), k.get("omtu"), k.get("dmtu"))
+        desc = "vo=%s vd=%s (bound %d) omtu=%s dmtu=%s delay=%s" % (case.get("vo"), case.get("vd"), PIPE_BOUND, case.get("omtu"), case.get("dmtu"), case.get("delay"))
+        if bad["ev"] == "hang":
+            ctx.violation("hang|device-pipeline|%s" % cls,
+                          "fdo.TO2 did not return within the watchdog for service-info volumes below the documented buffering bound (%s): "
+                          "the device module had received %s service infos, the owner %s answers" % (desc, bad.get("mgot"), bad.get("dgot")), {"case": case, "event": bad,
+                          "replay": "vh conc-pipe -in <[case]> -out ev.ndjson; validate with spec/DevPipe_Trace.tla"})
+        elif bad["ev"] == "crash":
+            ctx.violation("panic|%s|device-pipeline" % str(bad.get("what", "")).split("@")[-1].strip(), "panic in a device pipeline run (%s)" % desc, {"case": case, "event": bad})
+        elif bad["ev"] == "end":
+            if not bad.get("ok"):
+                key = "device-pipeline|to2-failed|%s|%s" % (cls, (bad.get("err") or "").split(":")[-1].strip()[:60])
+            else:
+                key = "device-pipeline|lost-or-reordered|%s" % cls
+            ctx.violation(key, "device pipeline run below the bound (%s) ended with ok=%s, device module received %s of %s, owner received %s of %s, in order: %s; %s"
+                          % (desc, bad.get("ok"), bad.get("mgot"), case.get("vo"), bad.get("dgot"), case.get("vd"), bad.get("inorder"), bad.get("err")), {"case": case, "event": bad})
+        else:
+            raise Inconclusive("DevPipe_Trace stopped at %s:\n%s" % (json.dumps(bad), res["out"][-2000:]))
+        pending = [x for x in pending if x is not r]
+    ctx.notes["pipeline_judging_stopped"] = "more than 8 rejected runs in %s" % label
+    return len(runs)
+
+
+def pipeline_volumes(ctx, vh, vhr, classes):
+    quick = ctx.quick()
+    rnd = random.Random(ctx.seed * 2003 + 5)
+    chosen = pairwise_cover(classes, rnd) if quick else list(classes)
+    watch = 120000
+    cases = [pipe_concretise(rnd, i + 1, k, watch) for i, k in enumerate(chosen)]
+    # race detector: the volumes near the bound with every size class of both sides
+    rk = [k for k in classes if k["vo"] == "near" and k["vd"] in ("some", "near")]
+    rnd.shuffle(rk)
+    rsel, seen_o, seen_d = [], set(), set()
+    for k in rk:
+        if len(rsel) < (4 if quick else 16) and (k["omtu"] not in seen_o or k["dmtu"] not in seen_d or len(seen_o) + len(seen_d) == 8):
+            rsel.append(k)
+            seen_o.add(k["omtu"])
+            seen_d.add(k["dmtu"])
+    rcases = [pipe_concretise(rnd, 10000 + i, k, 2 * watch) for i, k in enumerate(rsel)]
+    halves = [(cases[0::2], 16), (cases[1::2], 2)]
+    jobs = [(vh, cs, gmp, 8 if gmp > 2 else 4, "g%d" % gmp) for (cs, gmp) in halves if cs] + [(vhr, rcases, 8, 4, "race")]
+    def one(j):
+        evs, stderr = pipe_run(ctx, j[0], j[1], j[2], j[3], j[4])
+        k = pipe_judge(ctx, j[1], evs, "pipe-" + j[4])
+        r = races_in(ctx, stderr, "device pipeline volumes") if j[4] == "race" else 0
+        ms = [e["ms"] for e in evs if e["ev"] == "end"]
+        ctx.log("device pipeline %s: %d runs, GOMAXPROCS=%d, run wall ms max %s" % (j[4], len(j[1]), j[2], max(ms) if ms else None))
+        return k, sum(1 for e in evs if e["ev"] == "hang"), r
+
+    with ThreadPoolExecutor(max_workers=3) as ex:
+        res = list(ex.map(one, jobs))
+    n, hangs, races = sum(r[0] for r in res), sum(r[1] for r in res), sum(r[2] for r in res)
+    ctx.notes["pipeline_volume_runs"] = n
+    ctx.notes["pipeline_volume_classes"] = len(classes)
+    ctx.notes["pipeline_volume_hangs"] = hangs
+    ctx.notes["pipeline_volume_race_reports"] = races
+    ctx.cov["traces_validated_against_impl"] += n
+    ctx.cov["distinct_nontrivial"] += len(set(json.dumps(c["class"], sort_keys=True) for c in cases + rcases))
+    ctx.sample({"pipeline_case": cases[0]})
+    return races
